@@ -3,6 +3,7 @@
 From Coq Require Import List Arith Bool.
 Import ListNotations.
 From KV Require Import Model.Triu Model.Placement Proofs.PlacementP.
+From KV Require Import Model.Coll Model.Kfac Model.KfacComm Proofs.KfacCommPlaceP.
 
 (* after a step, a rank holds second-order data for a layer iff it is a gradient worker of the layer *)
 Theorem sod_iff_grad_worker : forall c r l, wf_layer c l -> 0 < pp c ->
@@ -50,6 +51,19 @@ Example hybrid_4_2 :
     = [(1, 0, 6, None); (1, 0, 3, None); (2, 1, 9, Some 1); (2, 1, 4, Some 1); (2, 1, 6, Some 1); (2, 2, 6, Some 3)].
 Proof. split; reflexivity. Qed.
 
+(* the same facts on the communication generator of C03 (Model/KfacComm.v), which the C03 correspondence compares
+   with the code call for call: whatever the history, a world of one communicates nothing; what a rank issues
+   in the inverse phase are broadcasts on its own gradient-worker column only, in the gradient phase broadcasts on
+   its own receiver row only *)
+Theorem generator_silent_in_world_one : forall c cap ls who es, pW c = 1 -> pk c = 1 ->
+  snd (crun c cap ls who [] es) = [].
+Proof. exact comm_world_one_l. Qed.
+
+Theorem generator_columns_and_rows : forall c r ls i,
+  (In i (inv_rank c r ls) -> ikind i = 2 /\ igrp i = g_col c (r mod pp c) /\ bcast_inv c = true) /\
+  (In i (grad_rank c r ls) -> ikind i = 2 /\ igrp i = g_row c (r / pp c) /\ bcast_grad c = true).
+Proof. intros. split; [apply inv_rank_own_column|apply grad_rank_own_row]. Qed.
+
 Print Assumptions sod_iff_grad_worker.
 Print Assumptions memory_reported_is_held.
 Print Assumptions inverse_bcast_only_in_columns.
@@ -58,3 +72,5 @@ Print Assumptions factor_allreduce_once_world.
 Print Assumptions no_comm_world_one.
 Print Assumptions symmetric_numel.
 Print Assumptions only_inverse_worker_computes.
+Print Assumptions generator_silent_in_world_one.
+Print Assumptions generator_columns_and_rows.
